@@ -165,7 +165,10 @@ def run_v(engine_v, repo, prog, pid):
             canary_failed.add(u[7:])
             continue
         f["engine"] = "V"
-        if u in units and not (prog.get("exclude") and re.search(prog["exclude"], f["obligation"])):
+        if u in set(prog.get("soft_units", [])):
+            # a sub-claim that rests on this unit is no longer established; the property's main claim does not depend on it
+            o["undecided"].append("sub-claim not re-established after a change of %s (%s): %s" % (u, prog.get("soft_reason", "see DESIGN"), f["obligation"]))
+        elif u in units and not (prog.get("exclude") and re.search(prog["exclude"], f["obligation"])):
             if f["obligation"] not in [g["obligation"] for g in o["failures"]]:
                 o["failures"].append(f)
         elif u in lemmas or u == "":
